@@ -66,8 +66,11 @@ def run(tier):
         try:
             gr = gate.grad(x)
         except NotImplementedError:
-            suite.fact('%s.grad.mixed.refused' % name, True, functions=fq2,
-                       what='the default gradient of %s is refused with NotImplementedError (no value returned)' % name)
+            # the statement quantifies over controlled rotations with the default parameter-shift gradients: no sum
+            # is returned for them (known finding F28)
+            suite.fact('%s.grad.default.refused' % name, False, functions=fq2,
+                       what='the default gradient of %s(f(x)) is refused with NotImplementedError: no formal sum is '
+                            'returned whose evaluation could be the derivative of the classical-quantum map' % name)
             continue
         suite.identity('%s.grad.mixed' % name, arr(total(gr, mixed=True)), diff_arr(gate.eval(mixed=True), x), angle=f,
                        extra=(g,), functions=fq2 + ['quantum.cqmap.Functor._ar'],
@@ -109,6 +112,15 @@ def run(tier):
         b = v.bubble(func=func)
         suite.identity('tensor.Bubble.grad[%d]' % k, arr(b.grad(x).eval()), diff_arr(b.eval(), x), extra=(x, y),
                        functions=['tensor.Bubble.grad'], what='chain rule for a polynomial bubble on one wire')
+    # a box that does not depend on the symbol has the empty sum as gradient
+    zb = v.grad(Symbol('z'))
+    suite.fact('tensor.Box.grad.other_symbol', isinstance(zb, tensor.Sum) and len(zb.terms) == 0 and (zb.dom, zb.cod) == (v.dom, v.cod),
+               functions=['tensor.Box.grad'], what='tensor.Box.grad of an independent box is the empty sum (got %r)' % (zb,))
+    # a diagram whose first box is a swap: the gradient is still a sum of tensor diagrams that evaluates
+    with suite.guard('tensor.Diagram.grad.swap_first', ['tensor.Diagram.grad', 'tensor.Sum']):
+        dsw = tensor.Swap(Dim(2), Dim(2)) >> tensor.Box('g', Dim(2, 2), Dim(1), [x, 0, y * x, 1])
+        suite.identity('tensor.Diagram.grad.swap_first', arr(total(dsw.grad(x))), diff_arr(dsw.eval(), x), extra=(x, y),
+                       functions=['tensor.Diagram.grad', 'monoidal.Sum.upgrade'])
     # bubbles inside a composite: the product rule must include the bubble's term
     hh = tensor.Box('h', Dim(2), Dim(2), [1, 2, 3, 4])
     gg = tensor.Box('g', Dim(2), Dim(2), [x ** 2, 1, y, x])
@@ -165,6 +177,24 @@ def run(tier):
             suite.identity('Circuit.jacobian%s.order' % ([str(v) for v in variables],),
                            [clean(v) for v in got.flatten()], want, angle=[x, y], functions=['quantum.circuit.Circuit.jacobian'],
                            what='the jacobian stacks the gradients in the order of the variables (block i = d/d variables[i])')
+    # the jacobian of pure gradients (mixed=False) stacks the derivatives of the amplitudes
+    for variables in ([x, y, w], [y, w, x], [x, y], [y, x]):
+        nm = 'Circuit.jacobian%s.pure' % ([str(v) for v in variables],)
+        with suite.guard(nm, ['quantum.circuit.Circuit.jacobian']):
+            jac = cj.jacobian(variables, mixed=False).eval(mixed=False)
+            base = cj.eval(mixed=False)
+            want = []
+            for var in variables:
+                want += diff_arr(base, var)
+            got = [clean(v) for v in numpy.array(jac.array, dtype=object).flatten()]
+            if len(got) != len(want):
+                suite.fact(nm, False, functions=['quantum.circuit.Circuit.jacobian'],
+                           what='the jacobian of pure gradients over %d variables evaluates to %s with %d entries, not to '
+                                'the %d stacked derivatives of the amplitudes' % (len(variables), type(jac).__name__,
+                                                                                  len(got), len(want)))
+            else:
+                suite.identity(nm, got, want, angle=[x, y], functions=['quantum.circuit.Circuit.jacobian'],
+                               what='pure jacobian: block i = d/d variables[i] of the amplitudes')
     return suite.result()
 
 
